@@ -63,12 +63,18 @@ package encryption
 
 // Client role: with verification configured the proxy verifies the server chain (InsecureSkipVerify off),
 // against the configured name and, when a CA path is given, against the pool built from it.
+//@ contract (TLSConfig).IsEnabled
+//@   shape sig=(t TLSConfig)()( bool);loops=;lits=0;fv=
+//@   props C19
+//@   ensures result == enabled(t)
+//@   assigns nothing
 //@ contract GetClientTLSConfig
 //@   shape sig=(clientConfig TLSConfig)(tlsConfig *tls.Config,err error);loops=;lits=0;fv=
 //@   props C19
 //@   assigns nothing
 //@   ensures @disabled: !enabled(clientConfig) ==> tlsConfig == nil && err == nil
 //@   ensures @error: err != nil ==> tlsConfig == nil
+//@   ensures @enabled_gives_a_config: enabled(clientConfig) && err == nil ==> tlsConfig != nil
 //@   ensures @verify: enabled(clientConfig) && !clientConfig.SkipCAVerification && err == nil ==>
 //@              tlsConfig != nil && !tlsConfig.InsecureSkipVerify && clientConfig.CAServerName != "" && tlsConfig.ServerName == clientConfig.CAServerName
 //@   ensures @pool: enabled(clientConfig) && !clientConfig.SkipCAVerification && err == nil && clientConfig.RemoteCAPath != "" ==>
